@@ -108,7 +108,7 @@ func (s *Script) comment(c string) {
 
 // obligation emits push / assert not / check-sat / pop and then assumes it.
 // check=false: only assumed (obligation belongs to another property's run).
-func (s *Script) obligation(id int, guard, phi string, check, wantModel bool) {
+func (s *Script) obligation(id int, guard, phi string, check, wantModel, assumeAfter bool) {
 	full := phi
 	if guard != "true" {
 		full = fmt.Sprintf("(=> %s %s)", guard, phi)
@@ -120,7 +120,9 @@ func (s *Script) obligation(id int, guard, phi string, check, wantModel bool) {
 		}
 		fmt.Fprintf(&s.body, "(pop 1)\n")
 	}
-	s.emit(fmt.Sprintf("(assert %s)\n", full))
+	if assumeAfter {
+		s.emit(fmt.Sprintf("(assert %s)\n", full))
+	}
 }
 
 // cover emits a reachability check: sat expected.
